@@ -9,6 +9,9 @@ use crate::zobrist::ZobristHasher;
 use log::{error, info};
 #[cfg(walleye_verif)]
 use crate::verif_seam::{io, process};
+#[cfg(walleye_verif)]
+#[allow(unused_imports)]
+use std::io::{BufRead as _, Write as _};
 #[cfg(not(walleye_verif))]
 use std::io::{self, BufRead};
 #[cfg(not(walleye_verif))]
